@@ -17,6 +17,6 @@ CONSTANTS
   FBits = 3
   FMaxTicks = 2
   FBug = "none"
-  FFixed = {}
+  FFixed = {"fresh_fake_nodes"}
 INVARIANT InvFlowStrict
 CHECK_DEADLOCK FALSE
